@@ -23,6 +23,7 @@ package tchannel
 import (
 	"bufio"
 	"encoding/json"
+	"fmt"
 	"io"
 	"io/ioutil"
 
@@ -105,8 +106,38 @@ func (r ArgReadHelper) ReadJSON(data interface{}) error {
 		}
 
 		d := json.NewDecoder(reader)
-		return d.Decode(data)
+		if err := d.Decode(data); err != nil {
+			return err
+		}
+
+		// WriteJSON terminates the value with a newline. Depending on where it
+		// falls relative to the buffers above, the decoder may not have pulled
+		// it out of the underlying reader, which would then look like
+		// unexpected trailing bytes. Consume trailing whitespace explicitly.
+		return skipTrailingWhitespace(io.MultiReader(d.Buffered(), reader))
 	})
+}
+
+// skipTrailingWhitespace consumes JSON whitespace up to the end of r, and
+// fails on anything else.
+func skipTrailingWhitespace(r io.Reader) error {
+	var buf [64]byte
+	for {
+		n, err := r.Read(buf[:])
+		for _, b := range buf[:n] {
+			switch b {
+			case ' ', '\t', '\r', '\n':
+			default:
+				return fmt.Errorf("found unexpected bytes after JSON value: %x", buf[:n])
+			}
+		}
+		if err == io.EOF {
+			return nil
+		}
+		if err != nil {
+			return err
+		}
+	}
 }
 
 // ArgWriteHelper providers a simpler interface to writing arguments.
